@@ -296,6 +296,9 @@ func originMatchesHost(c fiber.Ctx, trustedOrigins []string, trustedSubOrigins [
 		return nil
 	}
 
+	// Trusted origins are compared with the origin proper, never with a path, query or fragment
+	origin = originURL.Scheme + "://" + originURL.Host
+
 	for _, trustedOrigin := range trustedOrigins {
 		if origin == trustedOrigin {
 			return nil
@@ -329,7 +332,8 @@ func refererMatchesHost(c fiber.Ctx, trustedOrigins []string, trustedSubOrigins 
 		return nil
 	}
 
-	referer = refererURL.String()
+	// Trusted origins are compared with the origin of the referer, not with its whole URL
+	referer = refererURL.Scheme + "://" + refererURL.Host
 
 	for _, trustedOrigin := range trustedOrigins {
 		if referer == trustedOrigin {
